@@ -514,12 +514,25 @@ HammerResult hammerOnce(const HammerCase& h) {
     std::atomic<bool> stop(false);
     std::vector<HammerResult> res(h.threads);
     std::vector<std::thread> th;
+    // The operations are split into rounds; between two rounds (all threads at a barrier, as between two searches of
+    // the engine) the generation is increased, so that stale entries are refreshed by concurrent probes while other
+    // threads replace them.
+    struct Barrier {
+        std::atomic<int> count{0}, gen{0}; int n = 1;
+        void wait() { int g = gen.load(); if (count.fetch_add(1) + 1 == n) { count.store(0); gen.fetch_add(1); } else while (gen.load() == g) std::this_thread::yield(); }
+    } barrier;
+    barrier.n = h.threads;
+    const int rounds = 16 + (int)(h.seed % 1009);
     for (int t = 0; t < h.threads; t++) {
         th.emplace_back([&, t]() {
             Rng rng(vh::mix(h.seed * 131 + t));
             HammerResult& R = res[t];
             const int nk = (int)keys.size();
-            for (long i = 0; i < h.opsPerThread && !stop.load(std::memory_order_relaxed); i++) {
+            for (int round = 0; round < rounds; round++) {
+            barrier.wait();
+            if (t == 0 && round > 0) tt.nextGeneration();
+            barrier.wait();
+            for (long i = 0; i < h.opsPerThread / rounds && !stop.load(std::memory_order_relaxed); i++) {
                 int ki = rng.pick(nk);
                 uint64_t key = keys[ki];
                 int what = rng.pick(16);
@@ -535,12 +548,13 @@ HammerResult hammerOnce(const HammerCase& h) {
                     if (e.getType() == TType::T_EMPTY) continue;
                     R.hits++;
                     std::string err = e.getKey() != key ? "probe(" + hex(key) + ") returns an entry with key " + hex(e.getKey()) : checkPayload(key, e);
-                    if (!err.empty()) { R.error = err; stop.store(true); return; }
+                    if (!err.empty()) { R.error = err; stop.store(true); break; }
                     unsigned nonce = (unsigned)(uint16_t)e.getEvalScore();
                     unsigned w = writers[bucketOf[ki]].load(std::memory_order_relaxed);
                     if ((int)(nonce >> 12) != t && (w & (w - 1))) { R.crossHits++; if (R.ntHashes.size() < 20000) R.ntHashes.push_back(vh::mix(key ^ nonce)); }
                     if (what == 15) { tt.setBusy(e, 0); R.setBusy++; }
                 }
+            }
             }
         });
     }
